@@ -147,8 +147,10 @@ def run(ctx):
                 ep.name = "%s-batch%d" % (ep.name, b)
             sidx = [i for i, (_, t) in enumerate(proto.steps) if isinstance(c.fq(t), S)]
             for parts in ("one-block", "block-per-item", "3-3-1"):
-                vg = values.ValueGen(c, rng("C16ts", proto.name, parts), json_safe=True, max_len=3)
-                vals = vg.steps(proto, stream_len=7)
+                rr = rng("C16ts", proto.name, parts)
+                recv = lambda k: [k * 1000 - 3, "item-%d" % k * (1 + k % 3), (None if k % 2 else values.f64(k / 4.0))]
+                vals = {"TsOne": [rr.randrange(-5, 500), [recv(k) for k in range(7)]], "TsOnly": [[rr.choice([0, 127, 128, 2**32, 2**64 - 1, 300, 5]) for _ in range(7)]],
+                        "TsTwo": [[rr.randrange(-300, 300) for _ in range(7)], [recv(k) for k in range(7)]]}[proto.name]
                 pt = None if parts == "one-block" else {i: ([1] * 7 if parts == "block-per-item" else [3, 3, 1]) for i in sidx}
                 data = c.encode_stream(proto, m.schema(proto.name), vals, partitions=pt)
                 hdr = len(c.encode_stream(proto, m.schema(proto.name), vals, upto=0))
